@@ -41,6 +41,10 @@ type decoder struct {
 	// use performs one operation with the decoded object and returns the
 	// Marshal of the result and the reference's expectation.
 	use func(obj any, r rpt, head []byte) (got, want []byte)
+	// member, when set, is consulted only if the library refuses an encoding the
+	// strict decoder accepts: a decoder may also insist on group membership
+	// (the property does not say), so refusing a non-member is not a violation.
+	member func(head []byte) bool
 }
 
 func dirtyG1() *h.G1 {
@@ -168,6 +172,10 @@ func decoders() []*decoder {
 			use: func(obj any, _ rpt, head []byte) ([]byte, []byte) {
 				v, _ := bn.Fp12FromBytes(head)
 				return new(h.GT).Add(obj.(*h.GT), obj.(*h.GT)).Marshal(), v.Mul(v).Bytes()
+			},
+			member: func(head []byte) bool { // order-N subgroup of Fp12*
+				v, err := bn.Fp12FromBytes(head)
+				return err == nil && v.Exp(bn.N).IsOne()
 			}},
 	}
 }
@@ -212,6 +220,9 @@ func (d *decoder) offer(c *mon.Case, kind string, data []byte, dirty bool) {
 	head := data[:d.size]
 	want, wantMarshal, r := d.ref(head)
 	if err != nil {
+		if want == vAccept && d.member != nil && !d.member(head) {
+			want = vEither
+		}
 		if want == vAccept {
 			c.Fail("reject", "%s refuses a canonical encoding (%s): %x: %v", d.name, kind, head, err)
 		} else if want == vEither {
@@ -374,7 +385,6 @@ func decodeWorkload(x *mon.Ctx) {
 	t := tables()
 	ds := decoders()
 	dG1, dG1c, dG2, dG2c, dGT := ds[0], ds[1], ds[2], ds[3], ds[4]
-	zero := new(big.Int)
 
 	lengths := func(c *mon.Case, d *decoder, valid []byte) {
 		// short inputs must be refused (never a panic); long inputs decode the head and return the tail
@@ -699,5 +709,4 @@ func decodeWorkload(x *mon.Ctx) {
 		}
 		c.End()
 	}
-	_ = zero
 }
